@@ -373,33 +373,35 @@ theorem cli_options_match_tables : optionDests = Tables.cliOptions := by decide
 /-- and the model's `GeneratorOutput()` has the defaults the code has now -/
 theorem cli_defaults_match_tables : describe defaultOutput = Tables.cliDefaults := by decide
 
-/-- Full strength: giving every option on the command line produces the
-configuration the constructors (`GeneratorOutput(...)`, i.e. the API and the
-config-file reader) produce for the same values. -/
-def cli_flags_eq_api : Prop :=
-  ∀ o : GenOutput, cliGenerate defaultOutput (flagsOf o) = some (construct o)
-
-/-- False: `GeneratorOutput.update` re-runs `format.validate()` but not
-`GeneratorOutput.validate()`, so `--generic-collections --frozen` keeps
-`generic_collections=True` while the constructor reverts it. -/
-theorem cli_flags_eq_api_false : ¬ cli_flags_eq_api := by
-  intro h
-  have := h { defaultOutput with genericCollections := true,
-                                 format := { defaultOutput.format with frozen := true } }
-  revert this
-  decide
-
-/-- True for every configuration outside that corner (explicit decidable hypothesis). -/
-theorem cli_flags_eq_api_partial (o : GenOutput)
-    (h : ¬ (o.genericCollections = true ∧ o.format.frozen = true)) :
+/-- **CLI flags = API = config file, full strength**: giving every option on the
+command line produces exactly the configuration the constructors
+(`GeneratorOutput(...)`, i.e. the programmatic API and the config-file reader)
+produce for the same values — for *every* configuration.  (Before 4e80ca2
+`update` skipped `GeneratorOutput.validate()` and this failed for
+`--generic-collections --frozen`; nothing remains excluded.) -/
+theorem cli_flags_eq_api (o : GenOutput) :
     cliGenerate defaultOutput (flagsOf o) = some (construct o) := by
   obtain ⟨p, ⟨v, r, e, od, u, fz, sl⟩, ss, ds, ri, cf, wf, ml, gc, un, ip, ih⟩ := o
   simp only [cliGenerate, flagsOf, Dest.all, List.map, List.filterMap, Option.map, getField,
-    update, List.foldlM, setField, bind, Option.bind, pure, construct, outputValidate, formatValidate]
-  simp only at h
-  cases gc <;> cases fz <;> cases od <;> cases e <;> simp_all
+    update, List.foldlM, setField, bind, Option.bind, pure, construct]
 
-example : ¬ (defaultOutput.genericCollections = true ∧ defaultOutput.format.frozen = true) := by decide
+/-- the corner that used to differ, now through both routes -/
+example : cliGenerate defaultOutput
+      (flagsOf { defaultOutput with genericCollections := true,
+                                    format := { defaultOutput.format with frozen := true } })
+    = some { defaultOutput with genericCollections := false,
+                                format := { defaultOutput.format with frozen := true } } := by
+  decide
+
+/-- A *partial* set of flags on top of a project file equals the constructor run
+on the file's values overridden by the flags: `update` ends with the same two
+validations as `__post_init__`.  (`applyFlags` = plain assignment of the given flags.) -/
+theorem cli_partial_flags_eq_api (file : GenOutput) (kwargs : List (Dest × Option OptVal)) :
+    cliGenerate file kwargs =
+      ((kwargs.filterMap (fun kv => kv.2.map (fun v => (kv.1, v)))).foldlM
+        (fun o kv => setField o kv.1 kv.2) file).map construct := by
+  unfold cliGenerate update construct
+  rfl
 
 /-- Explicit flags override whatever the project file says: with every option
 given, the result does not depend on the file. -/
@@ -411,7 +413,7 @@ theorem cli_flags_override_file (c c' o : GenOutput) :
 
 /-- Config-file route: a configuration that came out of the constructors (what
 `GeneratorConfig.read` returns) passes through `cli.generate` without flags
-unchanged — the only thing `update` does then is the idempotent `format.validate()`. -/
+unchanged — the only thing `update` does then are the two idempotent validations. -/
 theorem config_file_eq_api (o : GenOutput) :
     cliGenerate (construct o) [] = some (construct o) := by
   obtain ⟨p, ⟨v, r, e, od, u, fz, sl⟩, ss, ds, ri, cf, wf, ml, gc, un, ip, ih⟩ := o
